@@ -59,6 +59,23 @@ def main():
         print('"unrecognised shape => undecided" - a restructured module is mostly *not read* by the rules anchored in it, and says so.\n')
 
 
+def totals():
+    """the one-line corpus figures of the DESIGN.md header"""
+    nd = no = nother = 0
+    npres = nviol = nund = 0
+    for rnd in (1, 2, 3, 4, 5):
+        D, own, other, none, P, viol, und = figures(rnd)
+        nd += len(D)
+        no += len(own)
+        nother += len(other)
+        npres += len(P)
+        nviol += len(viol)
+        nund += len(und)
+    return ('%d seeded defects, of which %d are reported by their own property\'s check and %d more by another property\'s check; %d behaviour-preserving changes - '
+            '%d of them the *corrected twins* of the round-3/4/5 defects - of which %d are reported by any check and %d leave an undecided clause somewhere'
+            % (nd, no, nother, npres, sum(1 for r in (3, 4, 5) for n, _ in metas(r, 'twin')), nviol, nund))
+
+
 if __name__ == '__main__':
     if '--install' in sys.argv:
         text = subprocess.run([sys.executable, os.path.abspath(__file__)], stdout=subprocess.PIPE, text=True).stdout
@@ -67,6 +84,9 @@ if __name__ == '__main__':
         a, b = '<!-- rounds45:begin -->\n', '<!-- rounds45:end -->\n'
         assert a in s and b in s
         s = s[:s.index(a) + len(a)] + text + s[s.index(b):]
+        a2, b2 = '<!-- totals:begin -->\n', '<!-- totals:end -->\n'
+        if a2 in s and b2 in s:
+            s = s[:s.index(a2) + len(a2)] + totals() + '\n' + s[s.index(b2):]
         open(p, 'w').write(s)
         print('installed %d lines' % text.count('\n'))
     else:
